@@ -324,7 +324,10 @@ def b2f(b):
 
 
 def f2b32(x):
-    return struct.unpack('<I', struct.pack('<f', x))[0]
+    try:
+        return struct.unpack('<I', struct.pack('<f', x))[0]
+    except OverflowError:
+        return 0x7f800000 if x > 0 else 0xff800000
 
 
 def b2f32(b):
@@ -642,7 +645,11 @@ def decode_result(kind, toks, ty, src):
                 return None
             v, i = val_from_tokens(toks[1:], ty)
             return ['some', canon_val(v, ty)]
+        if kind == 'str':
+            return canon_display_string(bytes.fromhex(toks[0][1:]).decode('utf-8'), ty.leaf().width)
     else:
+        if kind == 'str':
+            return canon_display_tokens(toks)
         if kind == 'val':
             v, i = val_from_otoks(toks, ty)
             return canon_val(v, ty)
@@ -664,6 +671,61 @@ def decode_result(kind, toks, ty, src):
             v, i = val_from_otoks(toks[1:], ty)
             return ['some', canon_val(v, ty)]
     raise ValueError(kind)
+
+
+_DISPLAY_RE = re.compile(r'(?P<sym>(?:\u03b5[0-9]?)+\u00b2?|v[0-9])|(?P<num>-?(?:inf|NaN|[0-9]+(?:\.[0-9]+)?(?:e-?[0-9]+)?))|(?P<ch>.)', re.S)
+_LAYOUT = set(' \n\t\u250c\u2510\u2514\u2518\u2502')
+
+
+def canon_display_string(s, width):
+    """Display output -> canonical string: numbers as <bit pattern>, layout characters (spaces, newlines, nalgebra's box) dropped"""
+    out = []
+    for m in _DISPLAY_RE.finditer(s):
+        if m.group('sym'):
+            out.append(m.group('sym'))
+        elif m.group('num'):
+            t = m.group('num')
+            x = float(t.replace('NaN', 'nan'))
+            b = f2b(x) if width == 64 else f2b32(x)
+            c = canon_bits(b, width)
+            out.append('<%s>' % c)
+        elif m.group('ch') not in _LAYOUT:
+            out.append(m.group('ch'))
+    return ''.join(out)
+
+
+def canon_display_tokens(toks):
+    """model token stream (Flat (list (token xf))) -> the same canonical string"""
+    out = []
+    i = [1]      # skip the list length
+
+    def tok():
+        t = toks[i[0]]
+        assert t[0] == 'tag', t
+        tag = t[1]
+        i[0] += 1
+        if tag == 200:
+            v = toks[i[0]]
+            i[0] += 1
+            if v[0] == 'tag' and v[1] < 0:
+                n = -v[1]
+                i[0] += n
+                out.append('<miss>')
+            else:
+                out.append('<%s>' % canon_bits(v[1], 64))
+        elif tag == 201:
+            n = toks[i[0]][1]
+            i[0] += 1
+            chars = ''.join(chr(toks[i[0] + k][1]) for k in range(n))
+            i[0] += n
+            out.append(''.join(c for c in chars if c not in _LAYOUT))
+        elif tag == 205:
+            i[0] += 2      # rows, cols: layout only; the cells follow in reading order and are ordinary tokens
+        else:
+            raise AssertionError('unexpected display tag %r' % (t,))
+    while i[0] < len(toks):
+        tok()
+    return ''.join(out)
 
 
 def find_misses(obj, acc):
@@ -714,6 +776,7 @@ OPS.update({
     'mul_assign_F': ('mul_assign_F', 'val', 1, 'q', '(hmul_assign a q)'), 'div_assign_F': ('div_assign_F', 'val', 1, 'q', '(hdiv_assign a q)'),
     'from_F': ('from_F', 'val', 0, 'q', '(ofF q : {TY})'),
     'nderiv': ('nderiv', 'int', 0, '', '(nderiv {TY})'),
+    'display': ('display', 'str', 1, '', '(tokens (F:=xf) a)'),
 })
 OPS.update({
     'sum3': ('sum', 'val', 3, '', '({S}_Sum_sum [a; b; c])'), 'product3': ('product', 'val', 3, '', '({S}_Product_product [a; b; c])'),
@@ -804,7 +867,7 @@ def runner_def(name, ty, op, extra_tpl=None):
             lets += "let '(q, l) := rd (A:=xf) l in "
     for v in 'abc'[:n]:
         lets += "let '(%s, l) := rd (A:=%s) l in " % (v, T)
-    return 'Definition %s (l : list Z) : list Z := %senc (flat %s).' % (name, lets, body)
+    return 'Definition %s (l : list Z) : list Z := (fun _ : oracle => %senc (flat %s)) t.' % (name, lets, body)
 
 
 def case_Z(c):
